@@ -27,7 +27,7 @@ EXPLANATION = (
     "time; verdict equality on data."
 )
 LEVEL_RULE = "one obligation per twin pair / config option / dispatch key / field attribute / write site"
-FLOORS = {"R1": 4, "R2": 12, "R3": 16, "R4": 14, "R5": 1, "R6": 1, "R7": 1, "R8": 1}
+FLOORS = {"R1": 4, "R2": 12, "R3": 16, "R4": 14, "R5": 1, "R6": 1, "R7": 1, "R8": 1, "R9": 1, "R10": 2}
 
 MODEL = "pandera/api/dataframe/model.py::DataFrameModel"
 MC = "pandera/api/dataframe/model_components.py"
@@ -327,11 +327,145 @@ def r7_own_namespace(ctx):
                f.loc(s))
 
 
+def _truthy_atoms(test):
+    if isinstance(test, ast.BoolOp):
+        for v in test.values:
+            yield from _truthy_atoms(v)
+    elif isinstance(test, ast.UnaryOp) and isinstance(test.op, ast.Not):
+        yield from _truthy_atoms(test.operand)
+    else:
+        yield test
+
+
+def r9_alias_by_none_only(ctx):
+    """`Field(alias=...)` accepts any hashable label - 0 for frames with default integer column labels, '' - so whether
+    an alias was given is decided by `is (not) None` only.  A truthiness test or an `alias or name` fallback compiles the
+    column under the attribute name instead, and the model no longer equals DataFrameSchema({0: Column(...)})."""
+    from ..util import Expander
+    ix = ctx.ix
+    n = bad_n = 0
+    for mp in ("pandera/api/base/model_components.py", "pandera/api/dataframe/model_components.py", "pandera/api/dataframe/model.py",
+               "pandera/api/pandas/model.py", "pandera/api/polars/model.py", "pandera/api/base/model.py"):
+        m = ix.by_path.get(mp)
+        if m is None:
+            continue
+        for f in m.all_functions:
+            if "alias" not in ast.dump(f.node):
+                continue
+            ex = Expander(f.node)
+
+            def is_alias(e):
+                e = ex.expand(e)
+                return (isinstance(e, ast.Attribute) and e.attr == "alias") or (isinstance(e, ast.Name) and e.id == "alias") or (
+                    isinstance(e, ast.Call) and isinstance(e.func, ast.Name) and e.func.id == "getattr" and len(e.args) >= 2
+                    and isinstance(e.args[1], ast.Constant) and e.args[1].value == "alias")
+            sites = []
+            for node in walk_no_nested(f.node):
+                tests = []
+                if isinstance(node, (ast.If, ast.While, ast.IfExp, ast.Assert)):
+                    tests.append(node.test)
+                elif isinstance(node, ast.comprehension):
+                    tests += node.ifs
+                for t in tests:
+                    for a in _truthy_atoms(t):
+                        if is_alias(a):
+                            sites.append((a, f"tested for truthiness in `{txt(t)[:50]}`"))
+                if isinstance(node, ast.BoolOp) and not any(node is t or any(node is x for x in ast.walk(t)) for t in tests):
+                    # value position: `alias or default`, `alias and ...`
+                    for v in node.values[:-1]:
+                        if is_alias(v):
+                            sites.append((v, f"used as the left operand of `{txt(node)[:50]}`"))
+                if isinstance(node, ast.Compare) and len(node.ops) == 1 and isinstance(node.ops[0], (ast.Is, ast.IsNot)) and is_alias(node.left):
+                    n += 1
+            for a, how in sites:
+                bad_n += 1
+                ctx.ob("R9", f, f"{f.short}: whether an alias was given is decided by `is None` only", False,
+                       f"`{txt(a)}` is {how}: the legal aliases 0 / '' count as missing, so the field is compiled under its attribute name "
+                       "(Field(alias=0) no longer equals DataFrameSchema({0: Column(...)}))", f.loc(a))
+    if n < 1 and not bad_n:
+        raise AnalysisError("no `alias is (not) None` decision found in the model component modules")
+    ctx.ob("R9", ix.module("pandera/api/base/model_components.py").all_functions[0], "alias presence is decided by None tests", not bad_n,
+           f"{n} `alias is (not) None` decisions, no truthiness use" if not bad_n else f"{bad_n} truthiness use(s)")
+    ctx.stats["alias_none_tests"] = n
+
+
+def r10_field_check_options(ctx):
+    """`Field(ge=0, ignore_na=False, ...)` must build Check.ge(0, ignore_na=False, ...): every Check option among Field's
+    parameters reaches every check constructor call whatever its value.  Forwarding `only the options that were set`
+    by truthiness drops `ignore_na=False` - the one value that differs from Check's default."""
+    from ..util import Expander
+    ix = ctx.ix
+    m = ix.module("pandera/api/dataframe/model_components.py")
+    f = m.functions.get("Field")
+    if f is None:
+        raise AnalysisError("model_components.Field missing")
+    ctx.touched(f)
+    check_init = None
+    for q in ("pandera/api/checks.py::Check", "pandera/api/base/checks.py::BaseCheck"):
+        try:
+            c = ix.cls(q)
+        except Exception:
+            continue
+        g = c.lookup("__init__")
+        if g is not None and check_init is None:
+            check_init = g
+    if check_init is None:
+        raise AnalysisError("Check.__init__ not found")
+    check_params = {a.arg for a in check_init.node.args.args + check_init.node.args.kwonlyargs} - {"self", "check_fn", "name", "error", "title", "description", "statistics"}
+    field_params = {a.arg for a in f.node.args.args + f.node.args.kwonlyargs}
+    options = sorted(check_params & field_params)
+    if len(options) < 3:
+        raise AnalysisError(f"Field/Check common options: {options}")
+    ex = Expander(f.node)
+    splats = []
+    for c in calls_in(f.node):
+        for k in c.keywords:
+            if k.arg is None and isinstance(k.value, ast.Name) and k.value.id not in ("kwargs", "arg_value"):
+                splats.append((c, k.value))
+    if not splats:
+        ctx.ob("R10", f, "Field forwards its check options to the check constructors", False, "no `**<options>` splat into a check constructor call")
+        return
+    for c, name in splats:
+        defs = ex.defs.get(name.id) or []
+        probs = []
+        if len(defs) != 1:
+            probs.append(f"`{name.id}` has {len(defs)} definitions")
+        else:
+            d = defs[0]
+            if isinstance(d, ast.Dict):
+                keys = {k.value for k in d.keys if isinstance(k, ast.Constant)}
+                missing = [o for o in options if o not in keys]
+                if missing:
+                    probs.append(f"options {missing} are not forwarded")
+                for k, v in zip(d.keys, d.values):
+                    if isinstance(k, ast.Constant) and k.value in options and not (isinstance(v, ast.Name) and v.id == k.value):
+                        probs.append(f"`{k.value}` is forwarded as `{txt(v)[:30]}`")
+            elif isinstance(d, ast.DictComp):
+                conds = [c2 for g in d.generators for c2 in g.ifs]
+                tgt = {x.id for g in d.generators for x in ast.walk(g.target) if isinstance(x, ast.Name)}
+                val_names = {x.id for x in ast.walk(d.value) if isinstance(x, ast.Name)} & tgt
+                for c2 in conds:
+                    used = {x.id for x in ast.walk(c2) if isinstance(x, ast.Name)}
+                    if used & val_names:
+                        probs.append(f"the forward is filtered by value (`if {txt(c2)[:40]}`): a falsy option such as ignore_na=False is dropped")
+                srcs = {e.value for g in d.generators for x in ast.walk(g.iter) for e in ([x] if isinstance(x, ast.Constant) and isinstance(x.value, str) else [])}
+                missing = [o for o in options if o not in srcs]
+                if missing:
+                    probs.append(f"options {missing} are not forwarded")
+            else:
+                probs.append(f"`{name.id} = {txt(d)[:40]}` is not a mapping of the options")
+        ctx.ob("R10", f, f"`{txt(c)[:50]}` receives every check option of Field unfiltered", not probs,
+               f"{options} forwarded as given" if not probs else "; ".join(probs) + ": the compiled Check differs from the one "
+               "DataFrameSchema users write (e.g. nulls ignored although ignore_na=False was requested)", f.loc(c))
+
+
 def run(ctx):
     from ..defassign import check_modules
     check_modules(ctx, "R8", ('pandera/api/dataframe/model.py', 'pandera/api/dataframe/model_components.py', 'pandera/api/pandas/model.py', 'pandera/api/polars/model.py', 'pandera/api/base/model.py', 'pandera/api/base/model_components.py'), "escapes to_schema()/validate of the model")
     r6_declaration_order(ctx)
     r7_own_namespace(ctx)
+    r9_alias_by_none_only(ctx)
+    r10_field_check_options(ctx)
     r1_twins(ctx)
     r2_config(ctx)
     r3_dispatch(ctx)
